@@ -58,7 +58,8 @@ IdlePass == [ active |-> FALSE, actor |-> "", target |-> "", oid |-> "", ouid |-
               gone404 |-> {},
               created |-> FALSE,
               pulled |-> "",                             \* package controller: class of the content pulled in this pass
-              sliceWant |-> [ k \in Keys |-> "" ] ]      \* package controller: content hash of the slice it wanted under name k                        \* deployment controller: this pass created an ObjectSet                           \* keys whose Delete was answered with NotFound                             \* deployment controller: key whose Create hit AlreadyExists
+              sliceWant |-> [ k \in Keys |-> "" ],
+              nf |-> {} ]                                \* keys an uncached Get of this pass did not find      \* package controller: content hash of the slice it wanted under name k                        \* deployment controller: this pass created an ObjectSet                           \* keys whose Delete was answered with NotFound                             \* deployment controller: key whose Create hit AlreadyExists
 
 Init == /\ l = 1
         /\ store = [ k \in Keys |-> Absent ]
@@ -240,7 +241,7 @@ TrRead ==
                                        ![p].verdict[k] = IF Rollout(pr) /\ ~SnapPaused(pr) /\ ~IsDelegatedKey(pr, k)
                                                            THEN Verdict(pr, k, o) ELSE @,
                                        ![p].calls = @ + 1 ]
-          ELSE pass' = [ pass EXCEPT ![p].calls = @ + 1 ]
+          ELSE pass' = [ pass EXCEPT ![p].calls = @ + 1, ![p].nf = IF nf /\ E.role = "uncached" THEN @ \cup {k} ELSE @ ]
     /\ UNCHANGED <<store, hist, scen>>
     /\ Advance
 
@@ -943,6 +944,46 @@ Inv_C14_SliceContent ==
        /\ W.post.kind \in {"ObjectDeployment", "ClusterObjectDeployment"})
     => \A sk \in SlicesOf(W.post) :
           (sk \in Keys /\ PR.sliceWant[sk] # "") => (store[sk].exists /\ store[sk].cr.tmplHash = PR.sliceWant[sk])
+
+---------------------------------------------------------------------------
+(* C18 ObjectTemplates track their sources and stay within bounds (driver template-walk: template t1 renders the
+   ConfigMap `out` from required source src-a (.data.a) and optional source src-b (.data.b, "unset" when absent);
+   checks are taken at quiescence = no pending trigger, timers fired) *)
+
+IsTmActor(a) == a \in {"tm", "ctm"}
+C18Ev == lw.valid /\ W.ev = "C18Check"
+SrcA == "ConfigMap/ns1/src-a"
+SrcB == "ConfigMap/ns1/src-b"
+OutK == "ConfigMap/ns1/out"
+Has(k) == k \in Keys /\ store[k].exists
+Field(k, f) == IF Has(k) /\ f \in DOMAIN store[k].data THEN store[k].data[f] ELSE "<none>"
+Renderable(c) == c \in {"ok", "ok2", "optionalFirst"}
+
+\* at quiescence the produced object equals the template rendered with the CURRENT values of its sources
+Inv_C18_OutputIsRender ==
+    (C18Ev /\ W.args.label \in {"initial", "mid", "final"} /\ Renderable(W.args.class) /\ Has(W.key) /\ ~store[W.key].deleting /\ Has(SrcA))
+    => /\ Has(OutK)
+       /\ Field(OutK, "a") = Field(SrcA, "a")
+       /\ Field(OutK, "b") = (IF Has(SrcB) THEN Field(SrcB, "b") ELSE "unset")
+       /\ (store[W.key].cr.class = "ok2") <=> ("c" \in DOMAIN store[OutK].data)
+       /\ IsControllerL(store[W.key].oid, store[W.key].uid, store[OutK].owners)
+       /\ ~CondTrue(store[W.key].cr, "package-operator.run/Invalid")
+
+\* a missing required source, an unparsable template, a source or target outside the template's namespace:
+\* the target is not written in that pass and the pass reports Invalid=True
+TmEnd == lw.valid /\ W.ev = "PassEnd" /\ IsTmActor(W.actor) /\ pass[W.actor].hasSnap /\ ~pass[W.actor].snap.deleting
+TM == pass[W.actor]
+TmBlocked == scen.row >= 0 /\ "class" \in DOMAIN scen
+             /\ (scen.class \in {"bad", "targetOtherNS", "sourceOtherNS"} \/ SrcA \in TM.nf)
+
+Inv_C18_InvalidNoWrite ==
+    (TmEnd /\ ~TM.apiErr /\ TmBlocked)
+    => /\ \A k \in Range(TM.writes) : store[k].kind # "ConfigMap" \/ k \in {SrcA, SrcB}     \* only source label patches
+       /\ W.res = "ok" /\ TM.statusWritten /\ CondTrue(TM.status.cr, "package-operator.run/Invalid")
+
+\* deleting the ObjectTemplate releases its watches
+Inv_C18_Freed ==
+    (C18Ev /\ W.args.label = "deleted") => (~Has(W.key) /\ W.args.templateRefs = 0)
 
 Inv_C19_NoPanic == ~(lw.valid /\ W.ev \in {"Panic", "Timeout"})
 
